@@ -139,6 +139,7 @@ func (t *Tokenizer) Load(r io.Reader, handler oj.TokenHandler) (err error) {
 				return
 			}
 			eof = true
+			err = nil
 		}
 	}
 	var skip int
